@@ -1,6 +1,7 @@
 import Driver.L0Packet
 import CoreBGP.Model.Update
 import CoreBGP.Spec.Update
+import CoreBGP.Model.Bitmap
 /-!
 # L0 driver: `update.go` (typed attribute decoders, prefixes, MP splitters, `UpdateDecoder`,
 `UpdateNotificationFromErr`)
@@ -448,9 +449,22 @@ def hFromErr : Handler
     pure ⟨m, o, toString (repr (strongest t))⟩
   | _, _ => none
 
+/-- `bitmap sets queries` => one byte per query: `attrsBitmap.set` for every code, then `isSet` -/
+def hBitmap : Handler
+  | [sets, qs], impl => do
+    let sets ← Term.asBytes sets
+    let qs ← Term.asBytes qs
+    let a := sets.foldl Bitmap.set Bitmap.empty
+    let m := Term.bytes (qs.map fun q => if a.isSet q then 1 else 0)
+    -- oracle: the bitmap is a set of type codes
+    let want := Term.bytes (qs.map fun q => if sets.contains q then 1 else 0)
+    let o := if impl == want then Oracle.ok else .fail "C16 the seen-attribute bitmap must answer exactly set membership of the type code"
+    pure ⟨m, o, s!"n{min sets.length 4}"⟩
+  | _, _ => none
+
 def updateHandlers : List (String × Handler) :=
   attrDecs.map (fun d => ("attr." ++ d.name, hAttr d)) ++
   [("flags", hFlags), ("pfx", hPfx), ("pfxfn", hPfxFn), ("mp6nh", hMp6Nh), ("mp6pfx", hMp6Pfx),
-   ("mpreach", hMpReach), ("mpunreach", hMpUnreach), ("upd", hUpd), ("fromerr", hFromErr)]
+   ("mpreach", hMpReach), ("mpunreach", hMpUnreach), ("upd", hUpd), ("fromerr", hFromErr), ("bitmap", hBitmap)]
 
 end Driver
